@@ -43,6 +43,13 @@ Same(P, how, OA, OB) ==
 
 \* ---- thr (C12)
 FactKey(f) == <<f[1], f[2], f[3], f[4], f[5]>>
+\* the printed ratios (scaled by 10^4) of the constraint lines and of the alternatives listed in comments: "every figure reported for
+\* a surviving alternative is identical" covers the percentage as well as the count (a line can keep its count and lose its ratio).
+\* Same exemption as Core!Facts: with disable_exact and without keep_less_specific a '+' line carries the figure of the exact
+\* cardinality it generalises, and which one that is depends on what the threshold left.
+ThrRatioFacts(obs) ==
+  UNION {UNION {(IF tc.ratio >= 0 /\ tc.ks = {} /\ ~(ca.disableExact /\ ~ca.keepLess /\ tc.card = PLUS) THEN {<<s.key, tc.inv, tc.p, tc.k, tc.card, tc.ratio>>} ELSE {}) \cup
+                {<<s.key, tc.inv, tc.p, f[1], f[2], f[4]>> : f \in {g \in tc.com : g[4] >= 0}} : tc \in s.tcs} : s \in obs}
 \* known finding KF.C12.cleanref (= KF.C02.cleanref seen across thresholds): at the lower threshold a reference to a shape wins
 \* the node-kind vote, that shape is removed as empty and the whole constraint goes with it (possibly the referring shape too,
 \* in cascade); at the higher threshold the reference is filtered first and the plain node kind stays - the key, or the shape,
@@ -61,6 +68,7 @@ Thr(OA, OB) ==
   (IF missK = {} THEN {} ELSE IF \A x \in missK : cleanK(x) THEN {"KF.C12.cleanref"} ELSE {"C12.keys"}) \cup
   (IF missS = {} THEN {} ELSE IF missS \subseteq droppable THEN {"KF.C12.cleanref"} ELSE {"C12.shapes"}) \cup
   (IF \E f \in A!Facts(OA), g \in B!Facts(OB) : FactKey(f) = FactKey(g) /\ f[6] # g[6] /\ f[4] # "NONLITERAL" THEN {"C12.figures"} ELSE {}) \cup
+  (IF \E f \in ThrRatioFacts(OA), g \in ThrRatioFacts(OB) : FactKey(f) = FactKey(g) /\ f[6] # g[6] /\ f[4] # "NONLITERAL" THEN {"C12.ratios"} ELSE {}) \cup
   \* the figure of a merged IRI+BNode line is the sum of whatever statements were selected at that threshold (known finding)
   (IF \E f \in A!Facts(OA), g \in B!Facts(OB) : FactKey(f) = FactKey(g) /\ f[6] # g[6] /\ f[4] = "NONLITERAL" THEN {"KF.C12.nlsum"} ELSE {}) \cup
   (IF \E x \in A!Heads(OA), y \in B!Heads(OB) : x[1] = y[1] /\ x[2] # y[2] THEN {"C12.counts"} ELSE {})
